@@ -336,7 +336,7 @@ pub fn std_world<'a>(t: &'a mut Tracer, name: &str, ss_amp: u64, ss_decs: [u8; 2
     let mut w = PW::new(SysCfg::default(), t, name);
     let o = w.user(0);
     let ok = w.creation_funds();
-    w.create_pool(&o, &["uusdc", "uusdt"], &[6, 6], fees(100, 200, 50, &[30]), CP, Some("cp1"), &ok);
+    w.create_pool(&o, &["uusdc", "uusdt"], &[6, 6], fees(100, 200, 50, &[30, 170, 45]), CP, Some("cp1"), &ok);
     w.create_pool(&o, &["uusdt", "uweth"], &[6, 18], fees(300, 0, 0, &[]), CP, Some("cp2"), &ok);
     w.create_pool(&o, &["uom", "uusd"], &[6, 6], fees(0, 0, 0, &[]), CP, Some("cp0"), &ok);
     w.create_pool(&o, &["uusd", "uusdc"], &ss_decs, fees(30, 40, 10, &[5, 5]), SS(ss_amp), Some("ss1"), &ok);
@@ -392,7 +392,10 @@ fn sc_swaps_and_routes(t: &mut Tracer) {
         w.route(&tr, &r2, &[coin(1_000_000, "uusdc")], Some(q.return_amount.u128() + 1), None, half);
         w.route(&tr, &r2, &[coin(1_000_000, "uusdc")], Some(q.return_amount.u128()), None, half);
     }
-    // broken routes
+    // broken routes: a hop whose input and output denom coincide, on a stableswap and on a constant-product pool
+    w.route(&tr, &[h("o.ss1", "uusd", "uusd")], &[coin(1000, "uusd")], None, None, half);
+    w.route(&tr, &[h("o.ss3", "uusdt", "uusdt"), h("o.cp1", "uusdt", "uusdc")], &[coin(1000, "uusdt")], None, None, half);
+    w.route(&tr, &[h("o.cp1", "uusdc", "uusdt"), h("o.cp1", "uusdt", "uusdt")], &[coin(1000, "uusdc")], None, None, half);
     w.route(&tr, &[h("o.cp1", "uusdc", "uusdt"), h("o.cp2", "uweth", "uusdt")], &[coin(1000, "uusdc")], None, None, half);
     w.route(&tr, &[], &[coin(1000, "uusdc")], None, None, half);
     w.route(&tr, &r2, &[coin(1000, "uusdt")], None, None, half);
@@ -474,6 +477,66 @@ fn sc_liquidity(t: &mut Tracer, ss_decs: [u8; 2], name: &str) {
     w.swap(&a, "o.cp2", &[coin(1000, "uusdt")], "uweth", None, half, None);
 }
 
+/// pools created with denoms in non-alphabetical order: deposits with a tolerance, then swaps
+fn sc_unsorted_pools(t: &mut Tracer) {
+    let mut w = PW::new(SysCfg::default(), t, "unsorted_pools");
+    let (o, lp, a) = (w.user(0), w.user(1), w.user(2));
+    let ok = w.creation_funds();
+    let half = Some(Decimal::percent(50));
+    let d = |x: u8| 10u128.pow(x as u32);
+    w.create_pool(&o, &["uweth", "uusdc"], &[18, 6], fees(30, 40, 10, &[]), SS(100), Some("zs"), &ok);
+    w.create_pool(&o, &["uusdt", "uusdc"], &[6, 6], fees(100, 200, 0, &[]), CP, Some("zc"), &ok);
+    w.create_pool(&o, &["uweth", "uusd", "uom"], &[18, 6, 8], fees(0, 0, 0, &[]), SS(10), Some("z3"), &ok);
+    w.provide(&lp, "o.zs", &sorted(vec![coin(300_000 * d(18), "uweth"), coin(100_000 * d(6), "uusdc")]), None, None, None, None, None);
+    w.provide(&lp, "o.zc", &sorted(vec![coin(3_000_000 * d(6), "uusdt"), coin(5_000_000 * d(6), "uusdc")]), None, None, None, None, None);
+    w.provide(&lp, "o.z3", &sorted(vec![coin(1_000_000 * d(18), "uweth"), coin(1_000_000 * d(6), "uusd"), coin(1_000_000 * d(8), "uom")]), None, None, None, None, None);
+    for (pool, x, y) in [("o.zs", "uweth", "uusdc"), ("o.zc", "uusdt", "uusdc")] {
+        w.swap(&a, pool, &[coin(1_000 * d(if x == "uweth" { 18 } else { 6 }), x)], y, None, half, None);
+        w.swap(&a, pool, &[coin(1_000 * d(6), y)], x, None, half, None);
+    }
+    // deposits with a tolerance: proportional on the constant-product pool, dust with tolerance 100% on the stableswap pools
+    w.provide(&a, "o.zc", &sorted(vec![coin(3_000 * d(6), "uusdt"), coin(5_000 * d(6), "uusdc")]), None, None, None, Some(Decimal::percent(10)), None);
+    w.provide(&a, "o.zs", &sorted(vec![coin(3, "uweth"), coin(1, "uusdc")]), None, None, None, Some(Decimal::percent(100)), None);
+    w.provide(&a, "o.z3", &sorted(vec![coin(1, "uweth"), coin(1, "uusd"), coin(1, "uom")]), None, None, None, Some(Decimal::percent(100)), None);
+    // afterwards: swaps, deposits and withdrawals must behave as before
+    for (pool, x, y) in [("o.zs", "uweth", "uusdc"), ("o.zc", "uusdt", "uusdc"), ("o.z3", "uweth", "uom")] {
+        let dx = if x == "uweth" { 18 } else { 6 };
+        w.swap(&a, pool, &[coin(1_000 * d(dx), x)], y, None, half, None);
+        w.swap(&a, pool, &[coin(777 * d(if y == "uom" { 8 } else { 6 }), y)], x, None, half, None);
+    }
+    w.provide(&a, "o.zs", &sorted(vec![coin(100_000 * d(18), "uweth"), coin(100_000 * d(6), "uusdc")]), None, None, None, None, None);
+    w.provide(&a, "o.zs", &[coin(5_000 * d(6), "uusdc")], None, None, None, None, half);
+    let lpd = w.s.lp_denom("o.zs");
+    let have = w.s.bal(&a, &lpd);
+    if have > 0 { w.withdraw(&a, "o.zs", &[coin(have / 2, lpd)]); }
+    w.rsim("o.zc", &coin(1_000_000, "uusdc"), "uusdt");
+}
+
+/// C12 "routes of any length": a simple route over 101 distinct pools sharing two denoms
+fn sc_long_route(t: &mut Tracer) {
+    let mut w = PW::new(SysCfg::default(), t, "long_route");
+    // only the pools, balances and supplies are needed here
+    w.mask = Mask { pools: true, farms: true, epoch: true, owners: false };
+    let (o, lp, a) = (w.user(0), w.user(1), w.user(2));
+    let ok = w.creation_funds();
+    let n = 101;
+    let mut hops = vec![];
+    for k in 0..n {
+        let id = format!("r{k}");
+        w.s.exec_pm(&o, &pm::ExecuteMsg::CreatePool { asset_denoms: vec!["uusdc".into(), "uusdt".into()], asset_decimals: vec![6, 6],
+            pool_fees: fees(10, 20, 0, &[]), pool_type: CP, pool_identifier: Some(id.clone()) }, &ok).unwrap();
+        w.s.exec_pm(&lp, &pm::ExecuteMsg::ProvideLiquidity { liquidity_max_slippage: None, swap_max_slippage: None, receiver: None,
+            pool_identifier: format!("o.{id}"), unlocking_duration: None, lock_position_identifier: None },
+            &sorted(vec![coin(1_000_000_000 + k as u128 * 1000, "uusdc"), coin(1_000_000_000, "uusdt")])).unwrap();
+        let (i, oo) = if k % 2 == 0 { ("uusdc", "uusdt") } else { ("uusdt", "uusdc") };
+        hops.push((format!("o.{id}"), i.to_string(), oo.to_string()));
+    }
+    let st = w.s.snapshot(w.mask);
+    w.t.reset("long_route_ready", st);
+    w.route(&a, &hops, &[coin(1_000_000, "uusdc")], None, None, Some(Decimal::percent(50)));
+    w.route(&a, &hops[..100], &[coin(1_000_000, "uusdc")], None, None, Some(Decimal::percent(50)));
+}
+
 /// C17: toggles on one pool of two twins; every operation and path
 fn sc_toggles(t: &mut Tracer) {
     let mut w = std_world(t, "toggles", 100, [6, 6]);
@@ -541,10 +604,11 @@ fn sc_slippage(t: &mut Tracer, ss_decs: [u8; 2], name: &str) {
         let probe = 1_000 * d(odec);
         if let Ok(x) = w.simulate(pool, &coin(probe, od), ad) {
             let ret = x.return_amount.u128().max(1);
-            for (num, den) in [(100u128, 100u128), (101, 100), (99, 100), (110, 100), (200, 100)] {
+            for (num, den) in [(100u128, 100u128), (101, 100), (99, 100), (110, 100), (200, 100), (201, 100), (400, 100)] {
                 // belief_price = offer / expected_return
                 let belief = Decimal::from_ratio(probe * den, ret * num);
-                for tol in [None, Some(Decimal::zero()), Some(Decimal::percent(1)), Some(Decimal::percent(10)), Some(Decimal::percent(50))] {
+                for tol in [None, Some(Decimal::zero()), Some(Decimal::percent(1)), Some(Decimal::percent(10)), Some(Decimal::percent(50)),
+                            Some(Decimal::percent(70)), Some(Decimal::percent(100)), Some(Decimal::percent(150))] {
                     w.swap(&a, pool, &[coin(probe, od)], ad, Some(belief), tol, None);
                 }
             }
@@ -559,6 +623,16 @@ fn sc_slippage(t: &mut Tracer, ss_decs: [u8; 2], name: &str) {
         w.create_pool(&o, &["uusd", "uusdc"], &ss_decs, fees(30, 40, 10, &[]), SS(100), Some("pss"), &ok);
         w.provide(&lp, "o.pcp", &sorted(vec![coin(3_000_000 * d(6), "uusdc"), coin(5_000_000 * d(6), "uusdt")]), None, None, None, None, None);
         w.provide(&lp, "o.pss", &sorted(vec![coin(3_000_000 * d(ss_decs[0]), "uusd"), coin(5_000_000 * d(ss_decs[1]), "uusdc")]), None, None, None, None, None);
+        // deposits larger than the pool, skewed by ~17%: the ratio is measured against the reserves before the deposit
+        for tol in [Decimal::percent(5), Decimal::percent(10), Decimal::percent(16), Decimal::percent(17), Decimal::percent(20)] {
+            let p = w.s.q_pool("o.pcp").unwrap();
+            let r: Vec<u128> = p.pool_info.assets.iter().map(|c| c.amount.u128()).collect();
+            let names: Vec<String> = p.pool_info.assets.iter().map(|c| c.denom.clone()).collect();
+            w.provide(&a, "o.pcp", &sorted(vec![coin(r[0] * 10, names[0].clone()), coin(r[1] * 12, names[1].clone())]), None, None, None, Some(tol), None);
+            let lpd = w.s.lp_denom("o.pcp");
+            let have = w.s.bal(&a, &lpd);
+            if have > 0 { w.withdraw(&a, "o.pcp", &[coin(have, lpd)]); }
+        }
         for (j, tol) in [Decimal::zero(), Decimal::permille(1), Decimal::percent(1), Decimal::percent(50), Decimal::percent(100)].iter().enumerate() {
             let k = (j as u128 + 1) * 7;
             w.provide(&a, "o.pcp", &sorted(vec![coin(3 * k * d(6), "uusdc"), coin(5 * k * d(6), "uusdt")]), None, None, None, Some(*tol), None);
@@ -743,9 +817,13 @@ pub fn run(rng: &mut StdRng, thorough: bool, t: &mut Tracer) {
     sc_liquidity(t, [6, 6], "liquidity_6_6");
     sc_liquidity(t, [6, 18], "liquidity_6_18");
     sc_toggles(t);
+    sc_unsorted_pools(t);
     sc_slippage(t, [6, 6], "slippage_6_6");
     sc_slippage(t, [6, 18], "slippage_6_18");
     sc_slippage(t, [18, 6], "slippage_18_6");
+    if thorough {
+        sc_long_route(t);
+    }
     let (n, steps) = if thorough { (30, 150) } else { (5, 80) };
     for i in 0..n {
         random_history(rng, t, steps, i);
